@@ -576,3 +576,408 @@ Section Values.
       change (c :: r ++ rest) with ((c :: r) ++ rest). rewrite <- E. rewrite (path_value_rt v rest He Hr). reflexivity.
   Qed.
 End Values.
+
+(* ---------------------------------------------------------------- unfolding equations of the mutual fixpoints *)
+Definition show_atom (pf : N -> list N) (f : nat) (x : expr) : list N :=
+  if is_logic x then 40 :: show_expr pf f x ++ [41] else show_expr pf f x.
+Lemma show_expr_bin pf f op l r :
+  show_expr pf (S f) (EBin op l r) = show_atom pf f l ++ [32] ++ show_binop op ++ [32] ++ show_atom pf f r.
+Proof. reflexivity. Qed.
+Lemma show_expr_arith pf f op l r :
+  show_expr pf (S f) (EArithB op l r) =
+  show_expr pf f l ++ [32] ++ (match op with BAdd => [43] | BSub => [45] | BMul => [42] | BDiv => [47] | BMod => [37] end) ++ [32] ++ show_expr pf f r.
+Proof. reflexivity. Qed.
+Lemma show_expr_exists pf f l :
+  show_expr pf (S f) (EExists l) = [101; 120; 105; 115; 116; 115; 40] ++ flat_map (show_path pf f) l ++ [41].
+Proof. reflexivity. Qed.
+Lemma show_path_filter pf f e : show_path pf (S f) (PFilter e) = [63; 40] ++ show_expr pf f e ++ [41].
+Proof. reflexivity. Qed.
+Lemma safe_expr_S okf f rp e :
+  safe_expr okf (S f) rp e =
+  match e with
+  | EBin op l r =>
+      if is_cmp op then (2 <=? f)%nat && safe_operand okf rp l && safe_operand okf rp r
+      else safe_expr okf f rp l && safe_expr okf f rp r
+  | EArithB _ l r => (2 <=? f)%nat && safe_operand okf rp l && safe_operand okf rp r
+  | EExists (PRoot :: l) | EExists (PCurrent :: l) => (1 <=? f)%nat && forallb (safe_step okf f) l
+  | _ => false
+  end.
+Proof. reflexivity. Qed.
+Lemma safe_step_S okf f p :
+  safe_step okf (S f) p = match p with PFilter e => safe_expr okf f false e | _ => safe_inner p end.
+Proof. reflexivity. Qed.
+
+Lemma operand_not_logic okf rp e : safe_operand okf rp e = true -> is_logic e = false.
+Proof. destruct e; try discriminate; reflexivity. Qed.
+
+Definition atom_follow (rest : list N) : bool := hd_in [32; 41] rest && hd_in [41; 38; 124] (multispace0 rest).
+Definition fl_close (rest : list N) : bool := hd_in [41] rest.
+
+Lemma atom_opnd_follow rest : atom_follow rest = true -> opnd_follow rest = true.
+Proof.
+  unfold atom_follow, opnd_follow, val_follow. intros H. apply andb_true_iff in H. destruct H as [H1 H2]. rewrite H1. cbn [andb].
+  destruct (multispace0 rest) as [|c r]; [reflexivity|]. cbn [hd_in] in H2. apply existsb_eqb_in in H2.
+  destruct H2 as [<- | [<- | [<- | []]]]; reflexivity.
+Qed.
+Lemma fl_close_facts rest : fl_close rest = true ->
+  atom_follow rest = true /\ multispace0 rest = rest /\ ptag [38; 38] rest = PErr /\ ptag [124; 124] rest = PErr /\ name_follow rest = true.
+Proof.
+  destruct rest as [|c r]; [intros _; repeat split; reflexivity|]. cbn [fl_close hd_in]. intros H. apply existsb_eqb_in in H.
+  destruct H as [<- | []]. repeat split; reflexivity.
+Qed.
+
+Definition head_ok (t : list N) : Prop := exists c r, t = c :: r /\ is_space c = false.
+Lemma head_ok_ms t x : head_ok t -> multispace0 (t ++ x) = t ++ x.
+Proof. intros (c & r & -> & H). apply ms_app_head. exact H. Qed.
+
+Section Heads.
+  Variable pf : N -> list N.
+  Variable okf : N -> bool.
+  Hypothesis Hfl : forall b, okf b = true -> path_float_reads_back pf b.
+
+  (* first bytes *)
+  Lemma show_operand_head rp e : safe_operand okf rp e = true -> head_ok (show_operand pf e).
+  Proof.
+    destruct e as [l|v| | | |]; try discriminate.
+    - destruct l as [|p l]; [discriminate|]. destruct p; try discriminate; intros _; eexists; eexists; split; reflexivity.
+    - cbn [safe_operand show_operand]. intros H. destruct (show_pvalue_head pf okf Hfl v H) as (c & r & E & Hs & _).
+      exists c, r. split; assumption.
+  Qed.
+  Lemma show_expr_head : forall j rp e, safe_expr okf j rp e = true -> head_ok (show_expr pf j e).
+  Proof.
+    induction j as [|f IH]; intros rp e H; [discriminate H|]. rewrite safe_expr_S in H.
+    destruct e as [l|v|op l r|op x|op l r|l]; try discriminate H.
+    - rewrite show_expr_bin. destruct (is_cmp op) eqn:Ec.
+      + apply andb_true_iff in H. destruct H as [H Hr]. apply andb_true_iff in H. destruct H as [Hf Hl].
+        apply Nat.leb_le in Hf. destruct f as [|[|k]]; try lia.
+        unfold show_atom. rewrite (operand_not_logic okf rp l Hl), (show_expr_operand pf okf rp k l Hl).
+        destruct (show_operand_head rp l Hl) as (c & t & -> & Hc). eexists; eexists; split; [reflexivity|exact Hc].
+      + apply andb_true_iff in H. destruct H as [Hl _]. unfold show_atom at 1. destruct (is_logic l).
+        * eexists; eexists; split; reflexivity.
+        * destruct (IH rp l Hl) as (c & t & -> & Hc). eexists; eexists; split; [reflexivity|exact Hc].
+    - rewrite show_expr_arith. apply andb_true_iff in H. destruct H as [H Hr]. apply andb_true_iff in H. destruct H as [Hf Hl].
+      apply Nat.leb_le in Hf. destruct f as [|[|k]]; try lia. rewrite (show_expr_operand pf okf rp k l Hl).
+      destruct (show_operand_head rp l Hl) as (c & t & -> & Hc). eexists; eexists; split; [reflexivity|exact Hc].
+    - rewrite show_expr_exists. eexists; eexists; split; reflexivity.
+  Qed.
+  Lemma show_path_head j p : safe_step okf j p = true ->
+    exists c r, show_path pf j p = c :: r /\ (c = 46 \/ c = 58 \/ c = 91 \/ c = 63).
+  Proof.
+    destruct j as [|f]; [discriminate|]. rewrite safe_step_S. destruct p; try discriminate; intros H;
+      try (rewrite (show_path_inner pf f _ H); destruct (show_inner_head _ H) as (c & r & -> & Hc); exists c, r; split; [reflexivity|tauto]).
+    rewrite show_path_filter. eexists; eexists; split; [reflexivity|tauto].
+  Qed.
+  Lemma step_head_facts j p x : safe_step okf j p = true ->
+    name_follow (show_path pf j p ++ x) = true /\ multispace0 (show_path pf j p ++ x) = show_path pf j p ++ x
+    /\ (1 <= length (show_path pf j p))%nat.
+  Proof.
+    intros Hp. destruct (show_path_head j p Hp) as (c & r & E & Hc). rewrite E. cbn [app length].
+    destruct Hc as [-> | [-> | [-> | ->]]]; (split; [reflexivity|split; [reflexivity|lia]]).
+  Qed.
+
+End Heads.
+
+Section Level.
+  Variable pf : N -> list N.
+  Variable okf : N -> bool.
+  Hypothesis Hfl : forall b, okf b = true -> path_float_reads_back pf b.
+  Variable n m : nat.
+  Hypothesis HP : forall j rp e rest, (j <= n)%nat -> safe_expr okf j rp e = true -> (length (show_expr pf j e) < m)%nat ->
+    fl_close rest = true -> expr_or_fuel m rp (show_expr pf j e ++ rest) = POk rest e.
+  Hypothesis HQ : forall j p rest, (j <= n)%nat -> safe_step okf j p = true -> (length (show_path pf j p) < m)%nat ->
+    name_follow rest = true -> path_fuel m (show_path pf j p ++ rest) = POk (multispace0 rest) p.
+
+  Variable rp : bool.
+  Notation atom := (expr_atom rp (path_fuel m) (expr_or_fuel m rp)).
+  Definition atom_ok (t : list N) (x : expr) : Prop :=
+    forall rest, atom_follow rest = true ->
+    exists r', atom (t ++ rest) = POk r' x /\ (r' = rest \/ r' = multispace0 rest).
+
+  (* comparison and arithmetic *)
+  Lemma cmp_follow op x : is_cmp op = true ->
+    opnd_follow (32 :: show_binop op ++ 32 :: x) = true /\
+    pbarith (multispace0 (32 :: show_binop op ++ 32 :: x)) = PErr /\
+    pop (multispace0 (32 :: show_binop op ++ 32 :: x)) = POk (32 :: x) op.
+  Proof. destruct op; try discriminate; intros _; repeat split; reflexivity. Qed.
+  Definition show_barith (op : barith) : list N :=
+    match op with BAdd => [43] | BSub => [45] | BMul => [42] | BDiv => [47] | BMod => [37] end.
+  Lemma arith_follow op x :
+    opnd_follow (32 :: show_barith op ++ 32 :: x) = true /\
+    pbarith (multispace0 (32 :: show_barith op ++ 32 :: x)) = POk (32 :: x) op.
+  Proof. destruct op; repeat split; reflexivity. Qed.
+
+  Lemma ws_skip_space {A} (p : list N -> pres A) x : ws_around p (32 :: x) = ws_around p x.
+  Proof. reflexivity. Qed.
+
+  Lemma atom_cmp op l r : is_cmp op = true -> safe_operand okf rp l = true -> safe_operand okf rp r = true ->
+    atom_ok (show_operand pf l ++ [32] ++ show_binop op ++ [32] ++ show_operand pf r) (EBin op l r).
+  Proof.
+    intros Hc Hl Hr rest Hrest. exists (multispace0 rest). split; [|right; reflexivity].
+    rewrite <- !app_assoc. cbn [app].
+    destruct (cmp_follow op (show_operand pf r ++ rest) Hc) as (F1 & F2 & F3).
+    pose proof (ws_inner_expr_rt pf okf Hfl rp l _ Hl F1) as L.
+    pose proof (ws_inner_expr_rt pf okf Hfl rp r rest Hr (atom_opnd_follow rest Hrest)) as R.
+    unfold expr_atom. rewrite L. cbn [pbind]. rewrite F2. cbn [pbind palt]. rewrite F3. cbn [pbind].
+    rewrite ws_skip_space, R. reflexivity.
+  Qed.
+  Lemma atom_arith op l r : safe_operand okf rp l = true -> safe_operand okf rp r = true ->
+    atom_ok (show_operand pf l ++ [32] ++ show_barith op ++ [32] ++ show_operand pf r) (EArithB op l r).
+  Proof.
+    intros Hl Hr rest Hrest. exists (multispace0 rest). split; [|right; reflexivity].
+    rewrite <- !app_assoc. cbn [app].
+    destruct (arith_follow op (show_operand pf r ++ rest)) as (F1 & F2).
+    pose proof (ws_inner_expr_rt pf okf Hfl rp l _ Hl F1) as L.
+    pose proof (ws_inner_expr_rt pf okf Hfl rp r rest Hr (atom_opnd_follow rest Hrest)) as R.
+    unfold expr_atom. rewrite L. cbn [pbind]. rewrite F2. cbn [pbind palt].
+    rewrite ws_skip_space, R. reflexivity.
+  Qed.
+
+  (* parenthesised expression *)
+  Lemma atom_open x r2 e r3 : expr_or_fuel m rp (multispace0 x) = POk r2 e -> pchar 41 (multispace0 r2) = POk r3 tt ->
+    atom (40 :: x) = POk r3 e.
+  Proof.
+    intros H1 H2. unfold expr_atom.
+    assert (W : ws_around (inner_expr rp) (40 :: x) = PErr) by (destruct rp; reflexivity). rewrite W. cbn [pbind palt].
+    change (punary (40 :: x)) with (@PErr uarith). change (pchar 40 (40 :: x)) with (POk x tt). cbn [pbind palt].
+    rewrite H1. cbn [pbind]. rewrite H2. reflexivity.
+  Qed.
+  Lemma atom_paren j e : (j <= n)%nat -> safe_expr okf j rp e = true -> (length (show_expr pf j e) < m)%nat ->
+    atom_ok (40 :: show_expr pf j e ++ [41]) e.
+  Proof.
+    intros Hj He Hlen rest Hrest. exists rest. split; [|left; reflexivity].
+    cbn [app]. rewrite <- app_assoc. cbn [app]. apply (atom_open _ (41 :: rest)); [|reflexivity].
+    rewrite (head_ok_ms _ _ (show_expr_head pf okf Hfl j rp e He)).
+    apply (HP j rp e (41 :: rest) Hj He Hlen eq_refl).
+  Qed.
+
+  (* exists(...) *)
+  Lemma atom_exists_open x : atom (101 :: 120 :: 105 :: 115 :: 116 :: 115 :: 40 :: x) =
+    pdo (r3, ps) <- exists_paths (path_fuel m) (multispace0 x); pdo (r4, _) <- pchar 41 (multispace0 r3); POk r4 (EExists ps).
+  Proof.
+    unfold expr_atom.
+    assert (W : ws_around (inner_expr rp) (101 :: 120 :: 105 :: 115 :: 116 :: 115 :: 40 :: x) = PErr) by (destruct rp; reflexivity).
+    rewrite W. cbn [pbind palt]. reflexivity.
+  Qed.
+  Lemma path_fuel_close x : path_fuel m (41 :: x) = PErr.
+  Proof. destruct m; reflexivity. Qed.
+
+  Lemma flat_len_each {A} (show : A -> list N) l a : In a l -> (length (show a) <= length (flat_map show l))%nat.
+  Proof.
+    induction l as [|b l IH]; [intros []|]. cbn [flat_map]. rewrite app_length. intros [-> | H]; [lia|]. specialize (IH H). lia.
+  Qed.
+
+  Lemma exists_steps_rt f l rest : (f <= n)%nat -> forallb (safe_step okf f) l = true ->
+    (length (flat_map (show_path pf f) l) < m)%nat ->
+    exists r', many0 (path_fuel m) (S (length (flat_map (show_path pf f) l ++ 41 :: rest))) (flat_map (show_path pf f) l ++ 41 :: rest) [] = POk r' l
+               /\ multispace0 r' = 41 :: rest.
+  Proof.
+    intros Hf HF Hlen.
+    assert (G : Forall (fun p => safe_step okf f p = true /\ (length (show_path pf f p) < m)%nat) l).
+    { apply Forall_forall. intros p Hp. split; [rewrite forallb_forall in HF; apply HF; exact Hp|].
+      pose proof (flat_len_each (show_path pf f) l p Hp). lia. }
+    apply (many0_rt (path_fuel m) (show_path pf f) (fun p => safe_step okf f p = true /\ (length (show_path pf f p) < m)%nat) name_follow).
+    - intros a r [Ha La] Hr. apply HQ; assumption.
+    - intros a x [Ha _]. apply (step_head_facts pf okf). exact Ha.
+    - reflexivity.
+    - apply path_fuel_close.
+    - apply path_fuel_close.
+    - exact G.
+    - rewrite app_length.
+      pose proof (flat_len_ge (show_path pf f) _ l (fun a Ha => proj2 (proj2 (step_head_facts pf okf f a [] (proj1 Ha)))) G). lia.
+  Qed.
+
+  Lemma atom_exists f hd l : (f <= n)%nat -> (1 <= f)%nat -> (hd = PRoot \/ hd = PCurrent) -> forallb (safe_step okf f) l = true ->
+    (length (flat_map (show_path pf f) l) < m)%nat ->
+    atom_ok (show_expr pf (S f) (EExists (hd :: l))) (EExists (hd :: l)).
+  Proof.
+    intros Hf H1 Hhd HF Hlen rest Hrest. exists rest. split; [|left; reflexivity].
+    rewrite show_expr_exists. destruct f as [|f']; [lia|].
+    destruct (exists_steps_rt (S f') l rest Hf HF Hlen) as (r' & E & M).
+    cbn [flat_map]. rewrite <- !app_assoc. cbn [app]. rewrite atom_exists_open.
+    destruct Hhd as [-> | ->].
+    - change (show_path pf (S f') PRoot) with [36]. cbn [app multispace0]. change (is_space 36) with false. cbv iota.
+      unfold exists_paths. cbn [pchar]. change (36 =? 36) with true. cbv iota. cbn [pmap pbind palt].
+      rewrite E. cbn [pbind]. rewrite M. reflexivity.
+    - change (show_path pf (S f') PCurrent) with [64]. cbn [app multispace0]. change (is_space 64) with false. cbv iota.
+      unfold exists_paths. cbn [pchar]. change (64 =? 36) with false. change (64 =? 64) with true. cbv iota. cbn [pmap pbind palt].
+      rewrite E. cbn [pbind]. rewrite M. reflexivity.
+  Qed.
+
+  (* ---- && and || : the printer parenthesises every logical operand, so a printed chain has exactly two members *)
+  Notation eand := (expr_and rp (path_fuel m) (expr_or_fuel m rp)).
+  Notation eor := (expr_or rp (path_fuel m) (expr_or_fuel m rp)).
+  Definition and_ok (t : list N) (x : expr) : Prop :=
+    forall rest, atom_follow rest = true -> ptag [38; 38] (multispace0 rest) = PErr ->
+    exists r', eand (t ++ rest) = POk r' x /\ (r' = rest \/ r' = multispace0 rest).
+  Definition or_ok (t : list N) (x : expr) : Prop :=
+    forall rest, fl_close rest = true -> eor (t ++ rest) = POk rest x.
+
+  Lemma after_ms r' rest : r' = rest \/ r' = multispace0 rest -> multispace0 r' = multispace0 rest.
+  Proof. intros [-> | ->]; [reflexivity|apply ms_idem]. Qed.
+
+  Lemma and_single t x : atom_ok t x -> and_ok t x.
+  Proof.
+    intros Ha rest Hr Hs. destruct (Ha rest Hr) as (r' & E & D). exists r'. split; [|exact D].
+    unfold expr_and, separated_list1. rewrite E. cbn [pbind sep_loop]. rewrite (after_ms r' rest D), Hs. reflexivity.
+  Qed.
+
+  Lemma and_pair t1 x1 t2 x2 : atom_ok t1 x1 -> atom_ok t2 x2 -> head_ok t2 ->
+    and_ok (t1 ++ [32; 38; 38; 32] ++ t2) (EBin OAnd x1 x2).
+  Proof.
+    intros Ha1 Ha2 Hh rest Hr Hs. rewrite <- !app_assoc. cbn [app].
+    destruct (Ha1 (32 :: 38 :: 38 :: 32 :: t2 ++ rest) eq_refl) as (r1 & E1 & D1).
+    destruct (Ha2 rest Hr) as (r2 & E2 & D2). exists r2. split; [|exact D2].
+    pose proof (head_ok_ms t2 rest Hh) as M2.
+    assert (L : (length (t2 ++ rest) =? length r1)%nat = false /\ exists k, length r1 = S k).
+    { destruct D1 as [-> | ->]; cbn [multispace0 length]; change (is_space 32) with true; change (is_space 38) with false; cbv iota; cbn [length];
+        (split; [apply Nat.eqb_neq; lia|eexists; reflexivity]). }
+    destruct L as (L & k & Lk).
+    unfold expr_and, separated_list1. rewrite E1. cbn [pbind sep_loop].
+    rewrite (after_ms r1 _ D1).
+    change (multispace0 (32 :: 38 :: 38 :: 32 :: t2 ++ rest)) with (38 :: 38 :: 32 :: t2 ++ rest).
+    change (ptag [38; 38] (38 :: 38 :: 32 :: t2 ++ rest)) with (POk (32 :: t2 ++ rest) tt).
+    cbn [pbind]. change (multispace0 (32 :: t2 ++ rest)) with (multispace0 (t2 ++ rest)). rewrite M2.
+    rewrite L, E2. rewrite Lk. cbn [sep_loop]. rewrite (after_ms r2 rest D2), Hs. reflexivity.
+  Qed.
+
+  Lemma or_single t x : and_ok t x -> or_ok t x.
+  Proof.
+    intros Ha rest Hr. destruct (fl_close_facts rest Hr) as (F1 & F2 & F3 & F4 & _).
+    destruct (Ha rest F1 ltac:(rewrite F2; exact F3)) as (r' & E & D).
+    assert (r' = rest) by (destruct D as [-> | ->]; [reflexivity|exact F2]). subst r'.
+    unfold expr_or, separated_list1. rewrite E. cbn [pbind sep_loop]. rewrite F2, F4. reflexivity.
+  Qed.
+
+  Lemma or_pair t1 x1 t2 x2 : and_ok t1 x1 -> and_ok t2 x2 -> head_ok t2 ->
+    or_ok (t1 ++ [32; 124; 124; 32] ++ t2) (EBin OOr x1 x2).
+  Proof.
+    intros Ha1 Ha2 Hh rest Hr. destruct (fl_close_facts rest Hr) as (F1 & F2 & F3 & F4 & _).
+    rewrite <- !app_assoc. cbn [app].
+    destruct (Ha1 (32 :: 124 :: 124 :: 32 :: t2 ++ rest) eq_refl eq_refl) as (r1 & E1 & D1).
+    destruct (Ha2 rest F1 ltac:(rewrite F2; exact F3)) as (r2 & E2 & D2).
+    assert (r2 = rest) by (destruct D2 as [-> | ->]; [reflexivity|exact F2]). subst r2.
+    pose proof (head_ok_ms t2 rest Hh) as M2.
+    assert (L : (length (t2 ++ rest) =? length r1)%nat = false /\ exists k, length r1 = S k).
+    { destruct D1 as [-> | ->]; cbn [multispace0 length]; change (is_space 32) with true; change (is_space 124) with false; cbv iota; cbn [length];
+        (split; [apply Nat.eqb_neq; lia|eexists; reflexivity]). }
+    destruct L as (L & k & Lk).
+    unfold expr_or, separated_list1. rewrite E1. cbn [pbind sep_loop].
+    rewrite (after_ms r1 _ D1).
+    change (multispace0 (32 :: 124 :: 124 :: 32 :: t2 ++ rest)) with (124 :: 124 :: 32 :: t2 ++ rest).
+    change (ptag [124; 124] (124 :: 124 :: 32 :: t2 ++ rest)) with (POk (32 :: t2 ++ rest) tt).
+    cbn [pbind]. change (multispace0 (32 :: t2 ++ rest)) with (multispace0 (t2 ++ rest)). rewrite M2.
+    rewrite L, E2. rewrite Lk. cbn [sep_loop]. rewrite F2, F4. reflexivity.
+  Qed.
+
+  (* ---- one level of the grammar, given the levels below *)
+  Lemma atom_nl j x : (j <= S n)%nat -> is_logic x = false -> safe_expr okf j rp x = true ->
+    (length (show_expr pf j x) <= m)%nat -> atom_ok (show_expr pf j x) x.
+  Proof.
+    intros Hj Hnl Hs Hlen. destruct j as [|f]; [discriminate Hs|]. rewrite safe_expr_S in Hs.
+    destruct x as [l|v|op l r|op y|op l r|l]; try discriminate Hs.
+    - destruct (is_cmp op) eqn:Ec; [|destruct op; discriminate].
+      apply andb_true_iff in Hs. destruct Hs as [Hs Hr]. apply andb_true_iff in Hs. destruct Hs as [Hf Hl].
+      apply Nat.leb_le in Hf. destruct f as [|[|k]]; try lia.
+      rewrite show_expr_bin. unfold show_atom.
+      rewrite (operand_not_logic okf rp l Hl), (operand_not_logic okf rp r Hr).
+      rewrite (show_expr_operand pf okf rp k l Hl), (show_expr_operand pf okf rp k r Hr).
+      apply atom_cmp; assumption.
+    - apply andb_true_iff in Hs. destruct Hs as [Hs Hr]. apply andb_true_iff in Hs. destruct Hs as [Hf Hl].
+      apply Nat.leb_le in Hf. destruct f as [|[|k]]; try lia.
+      rewrite show_expr_arith.
+      rewrite (show_expr_operand pf okf rp k l Hl), (show_expr_operand pf okf rp k r Hr).
+      apply atom_arith; assumption.
+    - destruct l as [|hd l]; [discriminate Hs|].
+      assert (Hhd : (hd = PRoot \/ hd = PCurrent) /\ (1 <=? f)%nat && forallb (safe_step okf f) l = true)
+        by (destruct hd; try discriminate Hs; (split; [tauto|exact Hs])).
+      destruct Hhd as [Hhd Hs']. apply andb_true_iff in Hs'. destruct Hs' as [H1 HF]. apply Nat.leb_le in H1.
+      apply atom_exists; try assumption; try lia.
+      rewrite show_expr_exists in Hlen. cbn [flat_map] in Hlen. rewrite !app_length in Hlen. cbn [length] in Hlen. lia.
+  Qed.
+
+  Lemma atom_of j x : (j <= n)%nat -> safe_expr okf j rp x = true -> (length (show_atom pf j x) <= m)%nat ->
+    atom_ok (show_atom pf j x) x /\ head_ok (show_atom pf j x).
+  Proof.
+    intros Hj Hs Hlen. unfold show_atom in *. destruct (is_logic x) eqn:El.
+    - split; [|eexists; eexists; split; reflexivity].
+      apply atom_paren; try assumption. cbn [length] in Hlen. rewrite app_length in Hlen. cbn [length] in Hlen. lia.
+    - split; [apply atom_nl; try assumption; lia|apply (show_expr_head pf okf Hfl j rp x); assumption].
+  Qed.
+
+  Lemma expr_or_level e rest : safe_expr okf (S n) rp e = true -> (length (show_expr pf (S n) e) <= m)%nat ->
+    fl_close rest = true -> eor (show_expr pf (S n) e ++ rest) = POk rest e.
+  Proof.
+    intros Hs Hlen Hr. destruct (is_logic e) eqn:El.
+    - destruct e as [| |op l r| | |]; try discriminate El. pose proof Hs as Hs'. rewrite safe_expr_S in Hs'.
+      rewrite show_expr_bin in *.
+      destruct op; try discriminate El; cbn [is_cmp] in Hs'; apply andb_true_iff in Hs'; destruct Hs' as [Hl Hr'];
+        rewrite !app_length in Hlen; cbn [length show_binop] in Hlen;
+        destruct (atom_of n l (le_n _) Hl ltac:(lia)) as (A1 & _); destruct (atom_of n r (le_n _) Hr' ltac:(lia)) as (A2 & H2).
+      + exact (or_single _ _ (and_pair _ _ _ _ A1 A2 H2) rest Hr).
+      + exact (or_pair _ _ _ _ (and_single _ _ A1) (and_single _ _ A2) H2 rest Hr).
+    - exact (or_single _ _ (and_single _ _ (atom_nl (S n) e (le_n _) El Hs Hlen)) rest Hr).
+  Qed.
+End Level.
+
+Lemma path_fuel_S m bs :
+  path_fuel (S m) bs =
+  palt (ws_around inner_path bs) (fun _ =>
+        ws_around (fun b =>
+          pdo (r1, _) <- pchar 63 b;
+          pdo (r2, _) <- pchar 40 (multispace0 r1);
+          pdo (r3, e) <- expr_or_fuel m false (multispace0 r2);
+          pdo (r4, _) <- pchar 41 (multispace0 r3);
+          POk r4 (PFilter e)) bs).
+Proof. reflexivity. Qed.
+Lemma expr_or_fuel_S m rp bs : expr_or_fuel (S m) rp bs = expr_or rp (path_fuel m) (expr_or_fuel m rp) bs.
+Proof. reflexivity. Qed.
+
+Lemma filter_open m x r3 e r4 : expr_or_fuel m false (multispace0 x) = POk r3 e -> pchar 41 (multispace0 r3) = POk r4 tt ->
+  path_fuel (S m) (63 :: 40 :: x) = POk (multispace0 r4) (PFilter e).
+Proof.
+  intros H1 H2. rewrite path_fuel_S.
+  assert (W : ws_around inner_path (63 :: 40 :: x) = PErr) by reflexivity. rewrite W. cbn [palt].
+  unfold ws_around. change (multispace0 (63 :: 40 :: x)) with (63 :: 40 :: x).
+  change (pchar 63 (63 :: 40 :: x)) with (POk (40 :: x) tt). cbn [pbind].
+  change (multispace0 (40 :: x)) with (40 :: x). change (pchar 40 (40 :: x)) with (POk x tt). cbn [pbind].
+  rewrite H1. cbn [pbind]. rewrite H2. reflexivity.
+Qed.
+
+(* ---------------------------------------------------------------- all levels *)
+Section Main.
+  Variable pf : N -> list N.
+  Variable okf : N -> bool.
+  Hypothesis Hfl : forall b, okf b = true -> path_float_reads_back pf b.
+
+  Definition expr_level (n m : nat) : Prop :=
+    forall rp e rest, safe_expr okf n rp e = true -> (length (show_expr pf n e) < m)%nat -> fl_close rest = true ->
+    expr_or_fuel m rp (show_expr pf n e ++ rest) = POk rest e.
+  Definition step_level (n m : nat) : Prop :=
+    forall p rest, safe_step okf n p = true -> (length (show_path pf n p) < m)%nat -> name_follow rest = true ->
+    path_fuel m (show_path pf n p ++ rest) = POk (multispace0 rest) p.
+
+  Lemma levels : forall n m, expr_level n m /\ step_level n m.
+  Proof.
+    induction n as [n IH] using (well_founded_induction lt_wf). intros m.
+    destruct n as [|n]; [split; intros ? ? ?; discriminate|].
+    destruct m as [|m]; [split; intros ? ? ? ? ?; lia|].
+    assert (HP : forall j rp e rest, (j <= n)%nat -> safe_expr okf j rp e = true -> (length (show_expr pf j e) < m)%nat ->
+      fl_close rest = true -> expr_or_fuel m rp (show_expr pf j e ++ rest) = POk rest e)
+      by (intros j rp e rest Hj; apply (proj1 (IH j ltac:(lia) m))).
+    assert (HQ : forall j p rest, (j <= n)%nat -> safe_step okf j p = true -> (length (show_path pf j p) < m)%nat ->
+      name_follow rest = true -> path_fuel m (show_path pf j p ++ rest) = POk (multispace0 rest) p)
+      by (intros j p rest Hj; apply (proj2 (IH j ltac:(lia) m))).
+    split.
+    - intros rp e rest Hs Hlen Hr. rewrite expr_or_fuel_S.
+      apply (expr_or_level pf okf Hfl n m HP HQ rp e rest Hs ltac:(lia) Hr).
+    - intros p rest Hs Hlen Hr. pose proof Hs as Hs'. rewrite safe_step_S in Hs'.
+      destruct p as [| | | |s|s|s|l|e|e];
+        try (rewrite (show_path_inner pf n _ Hs'), path_fuel_S, (ws_inner_path_rt _ rest Hs' Hr); reflexivity);
+        try discriminate Hs'.
+      rewrite show_path_filter in *. rewrite !app_length in Hlen. cbn [length] in Hlen.
+      rewrite <- !app_assoc. cbn [app].
+      apply (filter_open m _ (41 :: rest)); [|reflexivity].
+      rewrite (head_ok_ms _ _ (show_expr_head pf okf Hfl n false e Hs')).
+      apply (HP n false e (41 :: rest) (le_n _) Hs' ltac:(lia) eq_refl).
+  Qed.
+End Main.
